@@ -306,7 +306,7 @@ def programs(tier: str) -> list[dict]:
     for p in P.fam_concat_empty():
         p["outs"] = {("out0" if k == "out" else k): v for k, v in p["outs"].items()}
         progs.append(p)
-    for p in [*P.fam_boolarith(), *P.fam_logical_nonbool()]:
+    for p in [*P.fam_boolarith(), *P.fam_logical_nonbool(), *P.fam_creation_then_math()]:
         p["outs"] = {("out0" if k == "out" else k): v for k, v in p["outs"].items()}
         progs.append(p)
     # how scalar constants are rendered (never thinned out)
